@@ -285,7 +285,31 @@ pub fn judge(u: &Unit, unit: &Value, p: &bpaf::OptionParser<Val>, argv: &[Tok], 
     let typed = strs[strs.len() - 1].as_str();
     let pre: Vec<&str> = strs[..strs.len() - 1].iter().map(|s| s.as_str()).collect();
     if pre.contains(&"--") {
-        ctx.s.skipped += 1;
+        // right of the separator everything is positional data: no option or command name may
+        // be offered, whatever has been typed after it
+        let rows = parse_rows(&text, typed);
+        let mut names: Vec<String> = vec![];
+        u.level.walk(
+            &mut |l, _| {
+                for n in &l.named {
+                    names.extend(n.names.shorts.iter().map(|c| format!("-{}", c)));
+                    names.extend(n.names.longs.iter().map(|c| format!("--{}", c)));
+                }
+                if let Tail::Cmds { cmds, .. } = &l.tail {
+                    names.extend(cmds.iter().map(|c| c.name.clone()));
+                }
+            },
+            0,
+        );
+        names.push("--help".into());
+        names.push("--version".into());
+        match rows.substs.iter().find(|sb| names.contains(sb) && sb.as_str() != typed) {
+            Some(sb) => ctx.violation(viol("nothing-but-positional-data-after-the-separator", u, unit, argv, via, format!("no option or command name offered right of `--` (got {})", sb), &text)),
+            None => {
+                ctx.count("lines-right-of-the-separator-judged");
+                ctx.s.validated += 1;
+            }
+        }
         return;
     }
     let s = match scan(&u.level, &pre) {
@@ -472,7 +496,7 @@ impl Check for C14 {
         // command names and one foreign item (lines with it are only held to clause (a))
         let mut alpha: Vec<Tok> = alphabet(&u.level, AlphaStyle::Compact).into_iter().filter(|t| {
             let s = t.lossy();
-            s != "--" && s != "--zz" && s != "w" && !(s.starts_with('-') && !s.starts_with("--") && s.len() > 2)
+            s != "--zz" && s != "w" && !(s.starts_with('-') && !s.starts_with("--") && s.len() > 2)
         }).collect();
         alpha.sort();
         let mut typed: Vec<Tok> = TYPED.iter().map(|s| Tok::s(s)).collect();
@@ -524,7 +548,7 @@ impl Check for C14 {
         }
     }
     fn rule(&self) -> String {
-        "definitions = conventional levels (<=2 named items of all 10 kinds, naming styles incl. aliases; tails none / positionals / command trees of depth 3 with aliases, optional and defaulted choices); every third definition hides its first item, every fourth writes its defaults with fallback_with, every fifth wraps one of its sub-commands in hide(), repeated items are written many() / some(msg).optional() / many().catch() in rotation (optional items with and without catch()), a few use non-ASCII names, every second attaches an echoing completer (input+\"1\", input+\"2\") to every argument; inputs = every vector of the token tree as the already typed part x every typed last word from {empty, -, --, every prefix of every long name, every short name, --name=, --name=pre, command prefixes, plain words}; revision 0 through set_comp and (for short lines) through the --bpaf-complete-rev=0 marker; (a) the outcome is completion output for every line; (b) every candidate is the preferred spelling of a visible matching name of the active or an enclosing level, a value of the completer of the item being typed, or a metavariable placeholder - never a hidden item or a name below a command not entered; (c) on a fresh prefix every visible name of the active level that extends it and is not already given (single-use) is offered, commands when no word precedes, completer values for the item being typed; the active level / given set / pending value come from a reference scan of the typed part; lines the scan cannot classify (unknown names, clusters, separator) are only held to (a); state = (definition, line)".into()
+        "definitions = conventional levels (<=2 named items of all 10 kinds, naming styles incl. aliases; tails none / positionals / command trees of depth 3 with aliases, optional and defaulted choices); every third definition hides its first item, every fourth writes its defaults with fallback_with, every fifth wraps one of its sub-commands in hide(), repeated items are written many() / some(msg).optional() / many().catch() in rotation (optional items with and without catch()), a few use non-ASCII names, every second attaches an echoing completer (input+\"1\", input+\"2\") to every argument; inputs = every vector of the token tree as the already typed part x every typed last word from {empty, -, --, every prefix of every long name, every short name, --name=, --name=pre, command prefixes, plain words}; revision 0 through set_comp and (for short lines) through the --bpaf-complete-rev=0 marker; (a) the outcome is completion output for every line; (b) every candidate is the preferred spelling of a visible matching name of the active or an enclosing level, a value of the completer of the item being typed, or a metavariable placeholder - never a hidden item or a name below a command not entered; (c) on a fresh prefix every visible name of the active level that extends it and is not already given (single-use) is offered, commands when no word precedes, completer values for the item being typed; the active level / given set / pending value come from a reference scan of the typed part; right of `--` no option or command name may be offered whatever was typed; lines the scan cannot classify (unknown names, clusters, separator) are only held to (a); state = (definition, line)".into()
     }
     fn bounds(&self, tier: Tier) -> Value {
         json!({"typed_part_length": tier.pick(2, 3), "typed_words": "18 fixed + all prefixes of all names"})
